@@ -89,8 +89,15 @@ LoggedVersion(vs, b, k, vid) ==
 RawDigests(v) == [etag |-> v.etag, crc32 |-> v.cks.crc32, crc32c |-> v.cks.crc32c, crc64 |-> v.cks.crc64,
                   sha1 |-> v.cks.sha1, sha256 |-> v.cks.sha256, type |-> v.cks.type]
 \* pairs <<digest structure term, raw digests>> of all live object versions
+\* The harness concretises blob symbol c0 as the EMPTY byte string (pdrv symbol table): inside the
+\* content of ONE part it contributes nothing, so <<c0, c2>> and <<c2>> are the same bytes and must
+\* be the same term (an empty PART still counts: it contributes MD5("") to a multipart ETag).
+EmptyBlob == "c0"
+NormTerm(t) == [t EXCEPT !.parts = [j \in DOMAIN t.parts |->
+                                     IF \A x \in 1..Len(t.parts[j]) : t.parts[j][x] = EmptyBlob THEN <<EmptyBlob>>
+                                     ELSE SelectSeq(t.parts[j], LAMBDA x : x # EmptyBlob)]]
 ETagPairs(St, vs) ==
-  UNION {UNION {{<<ETagTerm(St.objs[b][k][i]), RawDigests(LoggedVersion(vs, b, k, St.objs[b][k][i].vid))>> :
+  UNION {UNION {{<<NormTerm(ETagTerm(St.objs[b][k][i])), RawDigests(LoggedVersion(vs, b, k, St.objs[b][k][i].vid))>> :
                    i \in {n \in 1..Len(St.objs[b][k]) : ~St.objs[b][k][n].dm}} : k \in Keys} :
             b \in {x \in Buckets : St.bver[x] # "Absent"}}
 \* functional and injective: same structure <=> same raw ETag
@@ -140,8 +147,14 @@ GetAgrees(e, St) ==
      /\ e.obj.class = v.class
      /\ e.obj.size_ok
 
+\* for an "etag" mismatch the conflicting <<term, raw digests>> pairs are printed too
+Conflicts(E) == {pq \in E \X E : (pq[1][1] = pq[2][1]) # (pq[1][2] = pq[2][2])}
 Diag(i, what, a, e) ==
-  PrintT(ToJson([l |-> i, prog |-> prog, what |-> what, model_res |-> a.r, model_views |-> MViews(a.s)]))
+  PrintT(ToJson([l |-> i, prog |-> prog, what |-> what, model_res |-> a.r, model_views |-> MViews(a.s),
+                 conflict |-> IF what = "etag"
+                              THEN SetToSeq({[t1 |-> pq[1][1], r1 |-> pq[1][2], t2 |-> pq[2][1], r2 |-> pq[2][2]] :
+                                               pq \in Conflicts(etags \cup ETagPairs(a.s, e.views))})
+                              ELSE <<>>]))
 
 TInit == /\ S = InitState(Buckets, Keys, Deviations) /\ res = NoRes /\ hist = <<>>
          /\ l = 1 /\ etags = {} /\ mtimes = {} /\ prog = 0 /\ taken = {}
